@@ -298,3 +298,120 @@ mod tests {
         assert!(fxr.__eq__(fxr2))
     }
 }
+
+/// Verification hooks (compiled only with `--cfg rateslib_verif`): the Python-facing attributes and
+/// methods of `Ccy`, `FXRate` and `FXRates`, callable from Rust.
+#[cfg(rateslib_verif)]
+pub mod verif_hooks {
+    use super::*;
+
+    fn msg(e: PyErr) -> String {
+        Python::with_gil(|py| {
+            if e.is_instance_of::<PyValueError>(py) {
+                "ValueError".to_string()
+            } else {
+                "Exception".to_string()
+            }
+        })
+    }
+
+    /// Everything the Python getters of an `FXRates` return.
+    pub struct View {
+        pub fx_rates: Vec<FXRate>,
+        pub currencies: Vec<Ccy>,
+        pub ad: u8,
+        pub base: Ccy,
+        pub fx_vector: Vec<Number>,
+        pub fx_array: Vec<Vec<Number>>,
+    }
+    pub fn view(f: &FXRates) -> Result<View, String> {
+        Ok(View {
+            fx_rates: f.fx_rates_py().map_err(msg)?,
+            currencies: f.currencies_py().map_err(msg)?,
+            ad: f.ad_py().map_err(msg)?,
+            base: f.base_py().map_err(msg)?,
+            fx_vector: f.fx_vector_py().map_err(msg)?,
+            fx_array: f.fx_array_py().map_err(msg)?,
+        })
+    }
+    pub fn new(fx_rates: Vec<FXRate>, base: Option<Ccy>) -> Result<FXRates, String> {
+        FXRates::new_py(fx_rates, base).map_err(msg)
+    }
+    pub fn rate(f: &FXRates, lhs: &Ccy, rhs: &Ccy) -> Result<Option<Number>, String> {
+        f.rate_py(lhs, rhs).map_err(msg)
+    }
+    pub fn get_ccy_index(f: &FXRates, c: Ccy) -> Option<usize> {
+        f.get_ccy_index_py(c)
+    }
+    pub fn update(f: &mut FXRates, fx_rates: Vec<FXRate>) -> Result<(), String> {
+        f.update_py(fx_rates).map_err(msg)
+    }
+    pub fn set_ad_order(f: &mut FXRates, ad: ADOrder) -> Result<(), String> {
+        f.set_ad_order_py(ad).map_err(msg)
+    }
+    pub fn to_json(f: &FXRates) -> Result<String, String> {
+        f.to_json_py().map_err(msg)
+    }
+    pub fn eq(f: &FXRates, other: FXRates) -> bool {
+        f.__eq__(other)
+    }
+    pub fn copy(f: &FXRates) -> FXRates {
+        f.__copy__()
+    }
+    /// `FXRates.__new__(*f.__getnewargs__())`
+    pub fn renew(f: &FXRates) -> Result<FXRates, String> {
+        let (q, b) = f.__getnewargs__().map_err(msg)?;
+        FXRates::new_py(q, b).map_err(msg)
+    }
+    /// `onto.__setstate__(f.__getstate__())`
+    pub fn state(f: &FXRates, onto: &mut FXRates) -> Result<(), String> {
+        Python::with_gil(|py| {
+            let st = f.__getstate__(py).map_err(msg)?;
+            onto.__setstate__(st).map_err(msg)
+        })
+    }
+
+    /// (pair, rate, ad, settlement) of a quote by its getters
+    pub fn quote_view(q: &FXRate) -> Result<(String, Number, u8, Option<NaiveDateTime>), String> {
+        Ok((
+            q.pair_py().map_err(msg)?,
+            q.rate_py().map_err(msg)?,
+            q.ad_py(),
+            q.settlement_py().map_err(msg)?,
+        ))
+    }
+    pub fn quote_new(
+        lhs: &str,
+        rhs: &str,
+        rate: Number,
+        settlement: Option<NaiveDateTime>,
+    ) -> Result<FXRate, String> {
+        FXRate::new_py(lhs, rhs, rate, settlement).map_err(msg)
+    }
+    /// full pickle protocol of a quote: `__new__(*__getnewargs__())` then `__setstate__(__getstate__())`; also `__eq__`
+    pub fn quote_pickle(q: &FXRate) -> Result<(FXRate, FXRate, bool), String> {
+        let (l, r, n, s) = q.__getnewargs__().map_err(msg)?;
+        let fresh = FXRate::new_py(&l, &r, n, s).map_err(msg)?;
+        let mut out = fresh.clone();
+        Python::with_gil(|py| {
+            let st = q.__getstate__(py).map_err(msg)?;
+            out.__setstate__(st).map_err(msg)
+        })?;
+        let e = q.__eq__(&out);
+        Ok((fresh, out, e))
+    }
+    pub fn ccy_new(name: &str) -> Result<Ccy, String> {
+        Ccy::new_py(name).map_err(msg)
+    }
+    /// (name getter, pickled copy, `__eq__` with it)
+    pub fn ccy_pickle(c: &Ccy) -> Result<(String, Ccy, bool), String> {
+        let (n,) = c.__getnewargs__().map_err(msg)?;
+        let mut out = Ccy::new_py(&n).map_err(msg)?;
+        Python::with_gil(|py| {
+            let st = c.__getstate__(py).map_err(msg)?;
+            out.__setstate__(st).map_err(msg)
+        })?;
+        let e = c.__eq__(&out);
+        Ok((c.name_py().map_err(msg)?, out, e))
+    }
+}
